@@ -1,14 +1,69 @@
 /-
 Property C07 — certificate functionaries must chain to a layout root and match a constraint.
-(Interim file: the unbounded theorems are in preparation, see /verif/wip/C07_full.lean.)
+
+ONLY property theorems live here (helper lemmas: InToto/Proofs/Cert.lean).
+Model: InToto/Model/Cert.lean.  X.509 parsing / path validation are oracles (`CertInfo`).
 -/
-import InToto.Model.Cert
+import InToto.Proofs.Cert
 
 namespace InToto.C07
-open InToto InToto.Cert
+open InToto InToto.Cert InToto.CertProofs
+
+/-- C07 (exact-set semantics of one attribute): wildcard permits anything; otherwise the
+    certificate's values must be exactly the listed values (each once). -/
+theorem attribute_exact (cs vs : List Str) :
+    attrOK cs vs = true ↔
+      cs = [lit% "*"] ∨ ((norm vs).Nodup ∧ ∀ x, x ∈ norm vs ↔ x ∈ norm cs) := attrOK_iff cs vs
+
+/-- C07: an empty constraint demands that the attribute is absent. -/
+theorem empty_demands_absent (vs : List Str) : attrOK [] vs = true ↔ norm vs = [] := attrOK_empty vs
+
+/-- C07: subset and superset are both rejected. -/
+theorem unexpected_value_rejected (cs vs : List Str) (x : Str) (hw : cs ≠ [lit% "*"])
+    (hx : x ∈ norm vs) (hnot : x ∉ norm cs) : attrOK cs vs = false := attrOK_unexpected cs vs x hw hx hnot
+theorem missing_value_rejected (cs vs : List Str) (x : Str) (hw : cs ≠ [lit% "*"])
+    (hx : x ∈ norm cs) (hnot : x ∉ norm vs) : attrOK cs vs = false := attrOK_missing cs vs x hw hx hnot
+
+/-- C07: order of constraint values / certificate values is irrelevant. -/
+theorem attribute_perm (cs cs' vs vs' : List Str) (hc : cs.Perm cs') (hv : vs.Perm vs') :
+    attrOK cs vs = attrOK cs' vs' := attrOK_perm cs cs' vs vs' hc hv
+
+/-- C07 (soundness): a certificate accepted for a step chains to a layout root (oracle verdict)
+    and common name, DNS names, e-mails, organisations and URIs all satisfy ONE AND THE SAME
+    constraint of the step. -/
+theorem accepted_sound (cs : List Constraint) (ci : CertInfo) (roots : List Str)
+    (h : stepCertOK cs ci roots = true) :
+    ci.chainOK = true ∧ ∃ c ∈ cs,
+      attrOK [c.commonName] [ci.commonName] = true ∧ attrOK c.dnsNames ci.dnsNames = true ∧
+      attrOK c.emails ci.emails = true ∧ attrOK c.organizations ci.organizations = true ∧
+      attrOK c.uris ci.uris = true ∧ attrOK c.roots roots = true := by
+  obtain ⟨c, hc, hok⟩ := (stepCertOK_iff cs ci roots).mp h
+  have := (constraintOK_iff c ci roots).mp hok
+  exact ⟨this.1, c, hc, this.2.2.1, this.2.2.2.1, this.2.2.2.2.1, this.2.2.2.2.2.1, this.2.2.2.2.2.2, this.2.1⟩
 
 /-- C07: a step without constraints accepts no certificate. -/
 theorem no_constraints_reject (ci : CertInfo) (roots : List Str) : stepCertOK [] ci roots = false := rfl
+
+/-- C07 (completeness under a wildcard root constraint): every certificate that chains and whose
+    five attributes satisfy a constraint with roots = `*` is accepted. -/
+theorem wildcard_root_complete (cs : List Constraint) (c : Constraint) (ci : CertInfo) (roots : List Str)
+    (hc : c ∈ cs) (hr : c.roots = [lit% "*"]) (hchain : ci.chainOK = true)
+    (h1 : attrOK [c.commonName] [ci.commonName] = true) (h2 : attrOK c.dnsNames ci.dnsNames = true)
+    (h3 : attrOK c.emails ci.emails = true) (h4 : attrOK c.organizations ci.organizations = true)
+    (h5 : attrOK c.uris ci.uris = true) : stepCertOK cs ci roots = true := by
+  apply (stepCertOK_iff cs ci roots).mpr
+  refine ⟨c, hc, (constraintOK_iff c ci roots).mpr ⟨hchain, ?_, h1, h2, h3, h4, h5⟩⟩
+  rw [hr]; exact attrOK_wild roots
+
+/-- a certificate that does not chain is rejected whatever the constraints say -/
+theorem untrusted_rejected (cs : List Constraint) (ci : CertInfo) (roots : List Str)
+    (h : ci.chainOK = false) : stepCertOK cs ci roots = false := by
+  cases hs : stepCertOK cs ci roots with
+  | false => rfl
+  | true =>
+    obtain ⟨c, _, hok⟩ := (stepCertOK_iff cs ci roots).mp hs
+    have := ((constraintOK_iff c ci roots).mp hok).1
+    rw [h] at this; cases this
 
 /-- examples (kernel-evaluated): exact, subset, superset, duplicate value, [""] normalisation -/
 theorem examples :
